@@ -84,4 +84,9 @@ BoundarySizes(c) ==
         THEN UNION {Around(k * (2 ^ (c.enc.chunk + 6)), {0, 1, 8, 9, 17, 18}) : k \in 1..2}
         ELSE {})
   \cup Around(8192, {0, 1, 8, 9, 14, 15, 22, 23})
+  \* SEIPDv1 streaming decryption holds the last 22 octets back between refills of its 8 KiB buffer: the container body ends on a refill
+  \* boundary at 8192 and at 8192 + 8170; in payload terms minus MDC (22), literal header (6 or 15) and packet framing (3, or 6 from 8384 on)
+  \cup (IF c.enc.kind = "v1" /\ c.compression = "none" /\ c.signers = <<>>
+        THEN Around(8192, {30, 31, 32, 39, 40, 41}) \cup Around(16362, {33, 34, 35, 42, 43, 44})
+        ELSE {})
 =============================================================================
